@@ -4,6 +4,7 @@ package main
 
 import (
 	"encoding/json"
+	"fmt"
 	"os"
 
 	vrt "github.com/sheerbytes/sheerbytes/internal/verif/vrt"
@@ -27,6 +28,8 @@ func main() {
 	switch mode {
 	case "c10":
 		modeC10()
+	case "c14":
+		modeC14()
 	default:
 		res.InfraError("unknown mode %s", mode)
 	}
@@ -48,6 +51,22 @@ func replayBox(mode string) {
 		var rp c10Replay
 		json.Unmarshal(art.Violation.Replay, &rp)
 		var w *c10World
+		if len(rp.Pair) == 3 {
+			var a, b int
+			fmt.Sscan(rp.Pair[0], &a)
+			fmt.Sscan(rp.Pair[1], &b)
+			x, err := vrt.Replay(boxCfg(), rp.Choices, func() {
+				w = c10Build(rp.History)
+				w.runPair(a, b, rp.Pair[2])
+			})
+			if err != nil {
+				res.InfraError("%v", err)
+				return
+			}
+			res.Eval()
+			c10Report(rp.History, nil, w, x, fmt.Sprintf(" then #%d sends || #%d %s", a, b, rp.Pair[2]))
+			return
+		}
 		x := vrt.Run(boxCfg(), nil, func() {
 			w = c10Build(rp.History)
 			if rp.Test != nil {
@@ -56,5 +75,46 @@ func replayBox(mode string) {
 		})
 		res.Eval()
 		c10Report(rp.History, rp.Test, w, x, "")
+	case "c14":
+		var rp c14Replay
+		json.Unmarshal(art.Violation.Replay, &rp)
+		res.Eval()
+		if rp.Scenario == "life" {
+			lifeCheck(rp.Cfg, rp.History)
+			return
+		}
+		for _, b := range c14Bursts() {
+			if b.name != rp.Scenario {
+				continue
+			}
+			var out *burstOut
+			cfg := boxCfg()
+			cfg.LockPoints = true
+			x, err := vrt.Replay(cfg, rp.Choices, func() { out = b.run() })
+			if err != nil {
+				res.InfraError("%v", err)
+				return
+			}
+			if c14Outcome(x, b.name, rp) && out != nil {
+				for _, v := range out.viol {
+					res.Violate("mismatch", "box/c14", map[string]any{"class": v[0], "scenario": b.kind}, fmt.Sprintf("%s %+v: %s", b.name, b.cfg, v[1]), rp)
+				}
+			}
+			return
+		}
+		for _, sc := range c14RateScenarios() {
+			if sc.name != rp.Scenario {
+				continue
+			}
+			var viol [][2]string
+			x := vrt.Run(boxCfg(), nil, func() { viol = sc.run() })
+			if c14Outcome(x, sc.name, rp) {
+				for _, v := range viol {
+					res.Violate("mismatch", "box/c14", map[string]any{"class": v[0], "scenario": sc.kind}, fmt.Sprintf("%s: %s", sc.name, v[1]), rp)
+				}
+			}
+			return
+		}
+		res.InfraError("unknown scenario %q", rp.Scenario)
 	}
 }
